@@ -20,7 +20,7 @@ LEVEL = "exploration"
 RULE = (
     "case = (emitter, id, payload): emitters are the four message constructors, the JSONRPCMessage.create_* classmethods and to/from_specific_type, every discovered send_* request "
     "helper and *_notification sender (captured from the write stream), BatchProcessor rejection/item errors, the elicitation / roots builders, and the transports' serialisers "
-    "(stdio: bytes at the scripted child's stdin; Streamable HTTP and SSE: POST bodies seen by a mock HTTP server) fed with those objects; payloads = JSON objects from a "
+    "(stdio: bytes at the scripted child's stdin, also with lines beyond 64 KiB and with server batches arriving mid-write whose -32600 rejections share the pipe; Streamable HTTP and SSE: POST bodies seen by a mock HTTP server) fed with those objects; payloads = JSON objects from a "
     "bounded-exhaustive grammar (depth<=2 over a 25-leaf alphabet incl. nested nulls, 64-bit ints, control/line-separator/astral characters) plus Hypothesis deep values; ids = ints "
     "incl. 0, negatives, 2^63..2^64-1 and strings incl. digit strings; both validation backends (the fallback backend in a fresh interpreter); oracle: independent JSON-RPC 2.0 grammar "
     "on the emitted wire form + parse_message(emitted) has the same kind and type-strictly identical id/method/params/result/error; non-trivial = payload has a nested null, non-ASCII/control "
